@@ -374,15 +374,9 @@ def _errors_kept(ck, repo, w):
                       construct=f"early-return:{f.qualname}",
                       detail="returning the verdict of the first candidate skips the others" if not in_handler else "returns the caught, non-empty error list of an aborting rule")
     ck.count("error_constructions_in_rules", n_err, 30)
-    # parse_and_validate_query refuses when errors exist
-    p = repo.func("tartiflette/execution/collect.py", "parse_and_validate_query")
-    pv = FuncView(p)
-    bad = [r for r in pv.returns() if isinstance(r.value, ast.Tuple) and unparse(r.value.elts[1]) == "document.validators.errors"]
-    ok = len(bad) == 1 and unparse(bad[0].value.elts[0]) == "None" and set(pv.conditions(bad[0])) == {("document.validators.errors", "T")}
-    ck.ob("parse_and_validate_query returns (None, errors) whenever a rule reported an error", ok, p, bad[0] if bad else p.node, construct="refuse:errors")
-    good = [r for r in pv.returns() if isinstance(r.value, ast.Tuple) and unparse(r.value.elts[0]) == "document"]
-    ck.ob("parse_and_validate_query hands out the document only without errors", len(good) == 1 and pv.guarded(good[0], lambda t: t == "document.validators.errors", "F"), p,
-          good[0] if good else p.node, construct="refuse:document")
+    # parse_and_validate_query refuses when errors exist (path outcome table, shape-independent)
+    from .. import parsegate
+    parsegate.check(ck, repo, tag="refuse")
     d = w.trans.func("document_from_ast_json")
     c = FuncView(d).maybe_call("DocumentNode")
     ck.ob("the document carries the validators object whose errors were accumulated", c is not None and arg_text(c, None, "validators") == "validators", d, c or d.node,
@@ -442,18 +436,8 @@ def _nothing_runs(ck, repo):
             d, e = [unparse(x) for x in st.targets[0].elts]
             ok = [unparse(a) for a in c.args][:3] == ["self._schema", d, e]
         ck.ob(f"{name}: passes the (document, errors) pair of the cached parse to the executor", bool(ok and c is not None), f, c or f.node, construct=f"pass-through:{name}")
-    pv = repo.func("tartiflette/execution/collect.py", "parse_and_validate_query")
-    pvv = FuncView(pv)
-    rets = pvv.returns()
-    pairs = all(isinstance(r.value, ast.Tuple) and len(r.value.elts) == 2 for r in rets)
-    main = [r for r in rets if not pvv.try_handlers_around(r) and not any(contains(h, r) for h in pvv.handlers())]
-    bad = [r for r in main if unparse(r.value.elts[0]) == "None"] if pairs else []
-    good = [r for r in main if unparse(r.value.elts[1]) == "None"] if pairs else []
-    ok = pairs and len(main) == 2 and len(bad) == 1 and len(good) == 1 and unparse(bad[0].value.elts[1]) == "document.validators.errors" and \
-        set(pvv.conditions(bad[0])) == {("document.validators.errors", "T")} and set(pvv.conditions(good[0])) == {("document.validators.errors", "F")} and \
-        unparse(good[0].value.elts[0]) == "document"
-    ck.ob("parse_and_validate_query answers (None, the validation errors) exactly when the rules reported some, else (document, None); every exit is a pair", ok, pv,
-          bad[0] if bad else pv.node, construct="gate:parse:pair", detail=str([unparse(r.value)[:50] for r in rets]))
+    from .. import parsegate
+    parsegate.check(ck, repo, tag="gate:parse")
     # bake_execute wires _perform_query/_perform_subscription as the innermost callable
     e = repo.func("tartiflette/engine.py", "Engine.cook")
     c = FuncView(e).maybe_call("bake_execute")
